@@ -49,7 +49,8 @@ def operators(base, secs):
     for si, (sname, kvs) in enumerate(secs):
         if sname.startswith("Table-Form"):
             name = sname.split(":", 1)[1]
-            for hv in ("Table-Form: %s" % name, "Table-Form:%s " % name, "Table-Form:  %s" % name):
+            # (blanks after the colon, before it and before the prefix: all are the table form `name` - round-7 seed C20_12 recognised only the first kind)
+            for hv in ("Table-Form: %s" % name, "Table-Form:%s " % name, "Table-Form:  %s" % name, "Table-Form :%s" % name, " Table-Form:%s" % name, "Table-Form\t: %s " % name):
                 new = [list(x) for x in secs] + [[hv, [["x", "0 1 2 3 4"], ["y", "9 9 9 9 9"]]]]
                 yield "table-form-header-whitespace", new, (sname, hv)
             continue
